@@ -252,7 +252,7 @@ class Gen:
         self.budget -= 1
         kinds = ['assign'] * 4 + ['print'] * 3 + ['aug'] * 2 + ['unpack', 'substore', 'if', 'if', 'for', 'for', 'while',
                  'def', 'def', 'class', 'walrus', 'import', 'dictops', 'exprstmt', 'multi', 'swap', 'nestunpack',
-                 'attr', 'lambdadef', 'scopechain']
+                 'attr', 'lambdadef', 'scopechain', 'bareann']
         if self.weights:
             kinds += [k for k, w in self.weights.items() for _ in range(w)]
         if sc.loop_depth:
@@ -561,23 +561,54 @@ class Gen:
             self.block(sc, ind + 1, depth - 1)
             sc.vars = dict(before); sc.funcs = dict(fbefore)
 
+    def s_bareann(self, sc, ind, depth):
+        # a statement that generates no code at all
+        self.features.add('bare-annotation')
+        self.emit(ind, f'{self.fresh("ann")}: int')
+
+    def _dead(self, ind):
+        """Occasionally: statements behind an interrupt (never run, still converted)."""
+        c = self.r.random()
+        if c < 0.15:
+            self.features.add('dead-code')
+            self.emit(ind, "print('dead')")
+        elif c < 0.25:
+            self.features.add('dead-code')
+            self.emit(ind, f'{self.fresh("dd")} = 0')
+
+    def _interrupt(self, sc, ind, word):
+        """`if c: <interrupt>` in several shapes: plain, with a no-code statement first, with else, with dead code."""
+        c = self.r.random()
+        self.emit(ind, f'if {self.bool_expr(sc)}:')
+        if c < 0.15:
+            self.emit(ind + 1, f'{self.fresh("ann")}: int')
+            self.features.add('bare-annotation')
+        self.emit(ind + 1, word)
+        self._dead(ind + 1)
+        if c > 0.8:
+            self.emit(ind, 'else:')
+            self.emit(ind + 1, f'{self.fresh("e")} = {self.int_expr(sc)}' if c > 0.9 else 'pass')
+
     def s_break(self, sc, ind, depth):
         self.features.add('break')
+        return self._interrupt(sc, ind, 'break')
         self.emit(ind, f'if {self.bool_expr(sc)}:')
         self.emit(ind + 1, 'break')
 
     def s_continue(self, sc, ind, depth):
         self.features.add('continue')
-        self.emit(ind, f'if {self.bool_expr(sc)}:')
-        self.emit(ind + 1, 'continue')
+        return self._interrupt(sc, ind, 'continue')
 
     def s_return(self, sc, ind, depth):
         self.features.add('return')
-        if self.r.random() < 0.6:
-            self.emit(ind, f'if {self.bool_expr(sc)}:')
-            self.emit(ind + 1, f'return {self.int_expr(sc)}')
+        c = self.r.random()
+        if c < 0.5:
+            self._interrupt(sc, ind, f'return {self.int_expr(sc)}')
+        elif c < 0.6:
+            self._interrupt(sc, ind, 'return')
         else:
             self.emit(ind, f'return {self.int_expr(sc)}')
+            self._dead(ind)
 
     def s_nonlocal(self, sc, ind, depth):
         # declare+modify an int of the nearest enclosing function
